@@ -96,7 +96,7 @@ def fam_wire_faults(w: World) -> None:
     """One to three (possibly corrupted) documents, one after another, to one long-lived dispatcher."""
     ch = w.ch
     n_deliveries = 1 + ch.draw(3, 'deliveries')
-    infos = [S.gen_document(ch, allow_junk=True, tok_prefix=f'd{d}_' if d else '') for d in range(n_deliveries)]
+    infos = [S.gen_document(ch, exotic=True, allow_junk=True, tok_prefix=f'd{d}_' if d else '') for d in range(n_deliveries)]
     n = max((len(i['doc']) if isinstance(i['doc'], list) else 1) for i in infos)
     cfg = S.draw_config(ch, n)
     texts = []
